@@ -342,6 +342,59 @@ func main() {
 		s.line = line + 1
 		w("func %s(c *call) { %s }\n\n", s.fn, s.body)
 	}
+	// inlinable twins: the logging call sits in a function small enough for the compiler to inline
+	// (family I: the call site itself is an inlined frame; family M: the frame one out of the call
+	// site is an inlined frame). The expected frames are the same whether or not the compiler inlines.
+	type inl struct {
+		s      *site
+		fn     string
+		line   int
+		f0, f1 string
+		l0, l1 int
+	}
+	var inls []inl
+	for _, s := range sites {
+		body := strings.TrimPrefix(s.body, "here(c.r); ")
+		x := inl{s: s}
+		x.f0 = "i" + s.fn
+		x.l0 = line + 1
+		w("func %s(c *call) { %s }\n\n", x.f0, body)
+		w("//go:noinline\n")
+		x.fn, x.line = "o"+s.fn, line+1
+		w("func %s(c *call) { here(c.r); %s(c) }\n\n", x.fn, x.f0)
+		inls = append(inls, x)
+		y := inl{s: s}
+		w("//go:noinline\n")
+		y.f0, y.l0 = "n"+s.fn, line+1
+		w("func %s(c *call) { %s }\n\n", y.f0, body)
+		y.f1, y.l1 = "m"+s.fn, line+1
+		w("func %s(c *call) { %s(c) }\n\n", y.f1, y.f0)
+		w("//go:noinline\n")
+		y.fn, y.line = "q"+s.fn, line+1
+		w("func %s(c *call) { here(c.r); %s(c) }\n\n", y.fn, y.f1)
+		inls = append(inls, y)
+	}
+	emitSite := func(s *site, fn string, ln int, extra string) {
+		lvl := "0"
+		if s.level != "" {
+			lvl = "zapcore." + s.level + "Level"
+		}
+		sl := "0"
+		if s.slogLvl != "" {
+			sl = "slog.Level" + s.slogLvl
+		}
+		w("\t{fe: %s, recv: %q, method: %q, hasLvl: %v, level: %s, slogLevel: %s, isCheck: %v, stdPanics: %v, fn: %s, line: %d, function: %q%s},\n",
+			s.fe, s.recv, s.method, s.hasLvl, lvl, sl, s.isCheck, s.panics, fn, ln, "main."+fn, extra)
+	}
+	w("var genInlSites = []*site{\n")
+	for _, x := range inls {
+		extra := fmt.Sprintf(", inl: []frame{{Fn: %q, Line: %d}", "main."+x.f0, x.l0)
+		if x.f1 != "" {
+			extra += fmt.Sprintf(", {Fn: %q, Line: %d}", "main."+x.f1, x.l1)
+		}
+		emitSite(x.s, x.fn, x.line, extra+"}")
+	}
+	w("}\n\n")
 	w("var genSites = []*site{\n")
 	for _, s := range sites {
 		lvl := "0"
